@@ -409,6 +409,10 @@ def _arg_calls():
         "Note.set_note/dynamics": lambda a: Note().set_note("D", 3, a),
         "NoteContainer.add_note/dynamics": lambda a: NoteContainer().add_note("C", 4, a),
         "MidiFile": lambda a: MidiFile([MidiTrack(120) for _ in a]).get_midi_data(),
+        "fft.analyze_chunks": lambda a: __import__("mingus.extra.fft", fromlist=["x"]).analyze_chunks(a, 44100, 16, 64),
+        "fft.find_frequencies": lambda a: __import__("mingus.extra.fft", fromlist=["x"]).find_frequencies(a, 44100, 16),
+        "fft.find_Note": lambda a: __import__("mingus.extra.fft", fromlist=["x"]).find_Note(a, 44100, 16),
+        "fft.find_notes": lambda a: __import__("mingus.extra.fft", fromlist=["x"]).find_notes(a, 110),
     }
 
 
@@ -421,7 +425,9 @@ KIND = {"notes": ["intervals.invert", "chords.determine", "chords.determine/shor
                      "substitute_diminished_for_diminished", "substitute_diminished_for_dominant"],
         "chordlist": ["Track.from_chords", "chords.from_shorthand/list"],
         "dynamics": ["Note/dynamics", "Note/dynamics-only", "Note.set_note/dynamics", "NoteContainer.add_note/dynamics"],
-        "any": ["MidiFile"]}
+        "any": ["MidiFile"],
+        "samples": ["fft.analyze_chunks", "fft.find_frequencies", "fft.find_Note"],
+        "freqtable": ["fft.find_notes"]}
 
 
 def check_args(ctx, case):
@@ -663,7 +669,9 @@ def sub_args(ctx, shard, n):
     strat = st.one_of(
         st.tuples(st.sampled_from(KIND["notes"]), notes), st.tuples(st.sampled_from(KIND["notes"]), notes),
         st.tuples(st.sampled_from(KIND["numerals"]), numerals), st.tuples(st.sampled_from(KIND["chordlist"]), chordlist),
-        st.tuples(st.sampled_from(KIND["dynamics"]), dyn), st.tuples(st.sampled_from(KIND["any"]), notes)).map(list)
+        st.tuples(st.sampled_from(KIND["dynamics"]), dyn), st.tuples(st.sampled_from(KIND["any"]), notes),
+        st.tuples(st.sampled_from(KIND["samples"]), st.lists(st.integers(-2000, 2000), min_size=64, max_size=200)),
+        st.tuples(st.sampled_from(KIND["freqtable"]), st.lists(st.tuples(st.floats(20.0, 5000.0), st.floats(0.0, 9.0)).map(list), min_size=1, max_size=6))).map(list)
     ctx.given("args", check_args, strat, 1200 if ctx.quick else 15000)
 
 
